@@ -8,7 +8,9 @@ Correspondence (model = lean/SparseSpace/Model/UQ.lean through drv_c15):
     the closed-form uniform moments and the unweighted trapezoidal rule; the static `get_middle_weighted` with
     synthetic cdf/ppf (fallback branches);
   * `calculate_expectation_and_variance` after a short dimension-wise run on ONE vector-valued model
-    (f, c f + e, k): the combined weights against `tensorW`/`combineW`, E and Var against `calcExpVar`.
+    (f, c f + e, k), f also steep / narrowly peaked and k up to 1e6 so that the raw E[f^2] - E[f]^2 of the combined
+    rule is substantially negative: the combined weights against `tensorW`/`combineW`, E and Var against `calcExpVar`;
+  * the static `moments_to_expectation_variance` on synthetic moment vectors against `momentsToExpVar`.
 Oracle (independent of the model, scipy reference distributions): weights >= 0, sum 1, uniform = trapezoid/(b-a),
 midpoint strictly inside and probability-halving, affine laws of E and Var, Var >= 0, constant model.
 """
@@ -667,9 +669,77 @@ def gen_synth_w(ctx):
     return {"kind": "synthw", "points": pts, "moments": mom, "boundary": r.random() < 0.5}
 
 
+# ----------------------------------------------------------------------------------------- case kind 2c: synthetic moment vectors
+
+def run_synth_mom(ctx, drv, case):
+    """static moments_to_expectation_variance with synthetic moment vectors: v = mom2 - mom1^2 spans large negative,
+    tiny negative, zero and positive values (the sign-repair branch for every magnitude)"""
+    import numpy as np
+    from sparseSpACE.GridOperation import UncertaintyQuantification
+    m1, m2 = [float(x) for x in case["mom1"]], [float(x) for x in case["mom2"]]
+    ok = True
+    try:
+        a1 = np.array(m1) if case["as_array"] else list(m1)
+        a2 = np.array(m2) if case["as_array"] else list(m2)
+        Ei, Vi = UncertaintyQuantification.moments_to_expectation_variance(a1, a2)
+        Ei, Vi = [float(x) for x in Ei], [float(x) for x in Vi]
+    except Exception as ex:  # noqa: BLE001
+        ctx.violation("moments-exception", {"synthetic": True}, case, {"exception": repr(ex)[:300]})
+        return False
+    rm = drv.ask("mom %s %s" % (fvec(m1), fvec(m2)))
+    try:
+        es, vs = rm[2:].split(" V ")
+        Em, Vm = [float(x) for x in parse_vec(es)], [float(x) for x in parse_vec(vs)]
+        good = len(Em) == len(Ei) and len(Vm) == len(Vi) and all(x == y for x, y in zip(Ei, Em)) and \
+            all(abs(x - y) <= 1e-9 * abs(y) + 1e-300 for x, y in zip(Vi, Vm))
+    except Exception:  # noqa: BLE001
+        good = False
+    if not good:
+        ok = False
+        ctx.corr_break("C15/moments-to-expectation-variance", case, {"impl": {"E": Ei, "V": Vi}, "model": rm[:400]})
+    # theorem var_nonneg evaluated on the implementation; the expectation is the first moment
+    raw = [Fraction(y) - Fraction(x) * Fraction(x) for x, y in zip(m1, m2)]
+    for v in raw:
+        ctx.count("synthmom_raw_" + ("zero" if v == 0 else "positive" if v > 0 else
+                                     "negative_tiny(<1e-10)" if v > -Fraction(1, 10 ** 10) else "negative_large(>=1e-10)"))
+    if any(v < 0 for v in Vi) or Ei != m1 or len(Vi) != len(m1):
+        ok = False
+        ctx.violation("var-negative" if any(v < 0 for v in Vi) else "moments-law", {"synthetic": True}, case,
+                      {"clause": "variance is never negative", "E": Ei, "V": Vi, "raw_mom2_minus_mom1_squared": [float(v) for v in raw]})
+    return ok
+
+
+def gen_synth_mom(ctx):
+    r = ctx.rng
+    n = r.randint(1, 6)
+    m1, m2 = [], []
+    for _ in range(n):
+        ex = r.choice([0.0, 0.0, 1.0, -1.5, 3.0, 0.125, 1000.0, -1.0e6, r.randint(-64, 64) / 8])
+        v = r.choice([-1.0e3, -1.0, -1.0e-3, -1.0e-6, -1.0e-9, -1.0e-10, -3.0e-11, -1.0e-12, -1.0e-15, 0.0, 0.0,
+                      1.0e-12, 1.0e-6, 0.5, 2.0, 1.0e3, -r.randint(1, 99) / 8, r.randint(1, 99) / 8,
+                      -(2.0 ** -r.randint(1, 60)), 2.0 ** -r.randint(1, 60)])
+        m1.append(ex)
+        m2.append(ex * ex + v)
+    return {"kind": "synthmom", "mom1": m1, "mom2": m2, "as_array": r.random() < 0.5}
+
+
 # ----------------------------------------------------------------------------------------- case kind 3: moments
 
-def base_function(fid, thr):
+def base_function(fid, thr, dims=None):
+    if fid in (5, 6):
+        # steep exponential / narrow peak in coordinates normalised to the domain (resp. to mu, sigma): on a coarse
+        # refined grid the combined rule (negative weights) makes E[f^2] - E[f]^2 substantially negative
+        def norm(x):
+            t = []
+            for v, dm in zip(x, dims):
+                if math.isinf(dm["a"]) or math.isinf(dm["b"]):
+                    t.append(max(-1e3, min(1e3, (v - dm["spec"][1]) / dm["spec"][2])) / 4 + 0.5)
+                else:
+                    t.append((v - dm["a"]) / (dm["b"] - dm["a"]))
+            return t
+        if fid == 5:
+            return lambda x: math.exp(sum(cf * t for cf, t in zip((6.0, 2.0, 1.0), norm(x))))
+        return lambda x: math.exp(-40.0 * sum((t - pk) ** 2 for t, pk in zip(norm(x), (thr, 0.75, 0.5))))
     if fid == 0:
         return lambda x: sum(math.atan(v) for v in x) + 0.5
     if fid == 1:
@@ -696,7 +766,7 @@ def run_moments_case(ctx, drv, case):
     dims, boundary = case["dims"], case["boundary"]
     ndim = len(dims)
     c, e, k = case["c"], case["e"], case["k"]
-    g = base_function(case["fid"], case["thr"])
+    g = base_function(case["fid"], case["thr"], dims)
     ok = True
     anyshared = any(shared_other_domain(dims, d) for d in range(ndim))
     fams = sorted({family_tag(dm) for dm in dims})
@@ -753,6 +823,15 @@ def run_moments_case(ctx, drv, case):
     absW = math.fsum(abs(x) for x in W)
     sc1 = [math.fsum(abs(w * v) for w, v in zip(W, col)) for col in cols]
     sc2 = [math.fsum(abs(w) * v * v for w, v in zip(W, col)) + s1 * s1 for col, s1 in zip(cols, sc1)]
+    # is the sign-repair branch of moments_to_expectation_variance exercised?  (exact raw value on the nodes)
+    for j, col in enumerate(cols):
+        e1 = sum(Fraction(w) * Fraction(v) for w, v in zip(W, col)) if all(math.isfinite(v) for v in col) else None
+        if e1 is not None:
+            raw = sum(Fraction(w) * Fraction(v) * Fraction(v) for w, v in zip(W, col)) - e1 * e1
+            if raw < 0:
+                ctx.count("moments_raw_variance_negative")
+            if raw < -Fraction(1, 10 ** 10):
+                ctx.count("moments_raw_variance_below_-1e-10" + ("_const" if j == 2 else ""))
     # ---- correspondence: bookkeeping of calculate_expectation_and_variance
     if any(math.isnan(x) or math.isinf(x) for col in cols for x in col):
         ctx.count("moments_nonfinite_model_value")
@@ -827,23 +906,23 @@ def gen_moments_case(ctx):
     dims = gen_dims(r, ndim)
     boundary = r.random() < 0.5
     infinite = any(math.isinf(dm["a"]) or math.isinf(dm["b"]) for dm in dims)
-    fid = r.choice([0, 1, 2] if infinite else [0, 1, 2, 3, 4])
+    fid = r.choice([0, 1, 2, 6, 6] if infinite else [0, 1, 2, 3, 4, 5, 5, 6, 6])
     form = "list"
     if all(dm["spec"] == dims[0]["spec"] for dm in dims) and r.random() < 0.4:
         form = "str" if dims[0]["spec"] == ["Uniform"] and r.random() < 0.5 else "single"
     lo = dims[0]["a"] if not math.isinf(dims[0]["a"]) else -1.0
     hi = dims[0]["b"] if not math.isinf(dims[0]["b"]) else 1.0
     return {"kind": "moments", "dims": dims, "boundary": boundary, "form": form, "fid": fid,
-            "thr": lo + (hi - lo) * r.randint(1, 7) / 8,
+            "thr": (lo + (hi - lo) * r.randint(1, 7) / 8) if fid < 5 else r.randint(1, 7) / 8,
             "c": r.choice([-3.0, -1.5, -0.25, 0.5, 2.0, 3.0, 16.0]), "e": r.choice([-8.0, -1.5, 0.0, 0.75, 5.0]),
-            "k": r.choice([-2.5, 0.0, 1.0, 2.5, 7.0]),
+            "k": r.choice([-2.5, 0.0, 1.0, 2.5, 7.0, 1.0e6, -1.0e6, 3.0e5]),
             "max_evaluations": r.choice([10, 20, 40] if ndim <= 2 else [20, 40]) if not thorough else r.choice([10, 30, 60, 100]),
             "lmax": r.choice([2, 2, 3])}
 
 
 # ----------------------------------------------------------------------------------------- entry points
 
-RUNNERS = {"tree": run_tree_case, "synthmid": run_synth_mid, "synthw": run_synth_w, "moments": run_moments_case}
+RUNNERS = {"tree": run_tree_case, "synthmid": run_synth_mid, "synthw": run_synth_w, "synthmom": run_synth_mom, "moments": run_moments_case}
 
 
 def run_case(ctx, drv, case):
@@ -899,7 +978,7 @@ def run(ctx):
         return True
 
     if phase("tree", gen_tree_case, n_tree, b_tree) and phase("synthmid", gen_synth_mid, n_synth, b_synth) \
-            and phase("synthw", gen_synth_w, n_synth, b_synth + 5):
+            and phase("synthw", gen_synth_w, n_synth, b_synth + 5) and phase("synthmom", gen_synth_mom, n_synth, b_synth + 8):
         phase("moments", gen_moments_case, n_mom, b_mom)
 
 
